@@ -7,7 +7,7 @@ import json
 import os
 import time
 
-from .. import evidence, lpcheck, lprun, pool
+from .. import evidence, lpcheck, lprun, pool, ref
 from .. import instances as I
 
 PID = "C16"
@@ -201,13 +201,24 @@ ORDER_INST = I.make3(2, 2, 2, (((1,), (2,)), ((1,), (2,))), (1, 2),
                      ((0, 1, 1), (0, 1, 1)))
 
 
+INFEAS_INST = I.make3(2, 2, 2, (((1,), (2,)), ((1,), (2,))), (1, 2),
+                      (((1,), (2,)), ((2,), (1,))), ((0, 1), (2, 2)),
+                      ((0, 1, 1), (0, 1, 1)))
+
+
 def judge_order(subset, positions, tally):
-    """With an existing file: '- optimisation:' lines appear in position order."""
+    """With an existing file: '- optimisation:' lines appear in position order;
+    on an instance without feasible matching only the prefix up to the first
+    solve that does not reach Optimal (= the first criterion) is reported."""
     from ..explore import Env
-    text = I.render(ORDER_INST)
-    cal = calibrate(text)
+    cal = calibrate(I.render(ORDER_INST))
+    if ref.feasible_set(INFEAS_INST, False, False) or \
+            not ref.feasible_set(ORDER_INST, False, False):
+        raise lprun.HarnessError("C16 order instances: feasibility assumption wrong")
     assign = dict(zip(subset, positions))
-    for order in (list(subset), list(reversed(subset))):
+    for inst, feasible in ((ORDER_INST, True), (INFEAS_INST, False)):
+      text = I.render(inst)
+      for order in (list(subset), list(reversed(subset))):
         tail = ["-na", "3", "-twopl"]
         for c in order:
             tail += ["-" + c, str(assign[c])]
@@ -216,6 +227,8 @@ def judge_order(subset, positions, tally):
         tally.inc("nontrivial")
         tally.inc("order_runs")
         want = [cal[c] for c in sorted(subset, key=lambda c: assign[c])]
+        if not feasible:
+            want = want[:1]
         for which in ("short", "long"):
             t = lpcheck.get_output(obs, which)
             if not isinstance(t, str):
@@ -223,13 +236,16 @@ def judge_order(subset, positions, tally):
                                  "what": "run failed: %r" % (obs["exc"],)})
                 break
             lines = [l for l in t.split("\n") if l.startswith("- optimisation:")]
+
             def strip(l):
                 return l.split(" up to position")[0]
             if [strip(l) for l in lines] != [strip(w) for w in want]:
-                tally.violation({"argv": tail, "file": text,
-                                 "fingerprint": "order:lines-not-in-position-order",
-                                 "what": "%s result lists %r, expected %r for %r" % (
-                                     which, lines, want, tail)})
+                fp = "order:lines-not-in-position-order" if feasible else \
+                    "order:criteria-reported-after-first-non-optimal-solve"
+                tally.violation({"argv": tail, "file": text, "fingerprint": fp,
+                                 "what": "%s result lists %r, expected %r for %r (%s instance)" % (
+                                     which, lines, want, tail,
+                                     "feasible" if feasible else "infeasible")})
                 break
 
 
